@@ -6,7 +6,7 @@
 (* wraps the tensors in the response envelope, feeds the real library, and *)
 (* compares each output.                                                   *)
 (***************************************************************************)
-EXTENDS Slice, View, Json
+EXTENDS Slice, Sort, Json
 
 CONSTANTS
   Scn,       \* scenario name (string), echoed in every line
@@ -158,8 +158,17 @@ C17_1D(tk) ==
 
 \* display orders in both renderings, labels (as references) and extents
 Bogus(d, dc, ord) == [k |-> "bogus", nd |-> 0, v |-> BogusIds(d, dc, ord)]
+
+\* payload_order: base elements in payload order whatever the order transform, the
+\* subtotals at their anchors, hidden / pruned elements removed, 'ins_N' rendering.
+\* Left open when the variable and the analysis both define insertions.
+PayloadOrderOut(d, dc, hid) ==
+  IF dc.hasx /\ dc.vins # << >> THEN AnyOrder
+  ELSE Bogus(d, dc, AnchoredOrder(d, [dc EXCEPT !.order.type = "payload"], hid))
+
 C07_2D(tk) ==
-  [ row_order_signed    |-> Exact(SignedIndexes(DimR, RowDC, RowOrder(tk))),
+  [ payload_order       |-> PayloadOrderOut(DimR, RowDC, RowHid(tk)),
+    row_order_signed    |-> Exact(SignedIndexes(DimR, RowDC, RowOrder(tk))),
     column_order_signed |-> Exact(SignedIndexes(DimC, ColDC, ColOrder(tk))),
     row_order_bogus     |-> Bogus(DimR, RowDC, RowOrder(tk)),
     column_order_bogus  |-> Bogus(DimC, ColDC, ColOrder(tk)),
@@ -170,12 +179,19 @@ C07_2D(tk) ==
     inserted_column_idxs |-> IdxWhere(CE(tk), IsIns),
     is_empty            |-> Exact(Len(RowOrder(tk)) = 0 \/ Len(ColOrder(tk)) = 0) ]
 C07_1D(tk) ==
-  [ row_order_signed |-> Exact(SignedIndexes(DimR, RowDC, RowOrder(tk))),
+  [ payload_order    |-> PayloadOrderOut(DimR, RowDC, RowHid(tk)),
+    row_order_signed |-> Exact(SignedIndexes(DimR, RowDC, RowOrder(tk))),
     row_order_bogus  |-> Bogus(DimR, RowDC, RowOrder(tk)),
     row_pos          |-> Positions(RowOrder(tk)),
     shape            |-> Exact(<<Len(RowOrder(tk))>>),
     inserted_row_idxs |-> IdxWhere(RE(tk), IsIns),
     is_empty         |-> Exact(Len(RowOrder(tk)) = 0) ]
+
+C08_2D(tk) ==
+  [ row_order_signed    |-> OrderOut(DimR, tk, RowHid(tk), RowSubsPruned(tk)),
+    column_order_signed |-> OrderOut(DimC, tk, ColHid(tk), ColSubsPruned(tk)) ]
+C08_1D(tk) ==
+  [ row_order_signed |-> OrderOut(DimR, tk, RowHid(tk), FALSE) ]
 
 C11_1D(tk) ==
   [ table_proportion_stddevs |-> Sqrt1(SVarV(tk, RE(tk))),
@@ -226,6 +242,8 @@ Part(tk) ==
     [] Family = "c17" /\ ND > 1 -> C17_2D(tk)
     [] Family \in {"c07", "c09"} /\ ND = 1 -> C07_1D(tk)
     [] Family \in {"c07", "c09"} /\ ND > 1 -> C07_2D(tk)
+    [] Family = "c08" /\ ND = 1 -> C08_1D(tk)
+    [] Family = "c08" /\ ND > 1 -> C08_2D(tk)
     [] Family = "c04" /\ ND = 1 -> IF HasY THEN C04_1D(tk) @@ C01_1D_Y(tk) ELSE C04_1D(tk)
     [] Family = "c04" /\ ND > 1 -> IF HasY THEN C04_2D(tk) @@ C01_2D_Y(tk) ELSE C04_2D(tk)
 
